@@ -131,9 +131,18 @@ def write_if_changed(path, text):
     return True
 
 
-def regenerate():
-    """Run the translator; returns (ok, report)."""
+def regenerate(scratch=False):
+    """Run the translator; returns (ok, report).  `scratch`: a debugging run against another checkout (E3FP_REPO) without the
+    proof step writes the generated files to a scratch directory, so that it cannot disturb a check running on /repo."""
     from harness import extract
+    if scratch:
+        import tempfile
+        d = tempfile.mkdtemp(prefix="gen_", dir=WORK)
+        try:
+            return extract.regenerate_all(REPO, d)
+        finally:
+            import shutil
+            shutil.rmtree(d, ignore_errors=True)
     return extract.regenerate_all(REPO, os.path.join(LEAN, "E3fpVerif", "Gen"))
 
 
@@ -396,7 +405,7 @@ def run_check(cls, argv=None):
 
     # 1. translator ------------------------------------------------------------------
     try:
-        ok, report = regenerate()
+        ok, report = regenerate(scratch=bool(args.no_proof and os.path.realpath(REPO) != "/repo"))
         for item, (iok, detail) in report.items():
             if chk.gen_items and item not in chk.gen_items:
                 continue
